@@ -1,7 +1,6 @@
 package jschema
 
 import (
-	stdBytes "bytes"
 	"fmt"
 
 	"github.com/jsightapi/jsight-schema-go-library/bytes"
@@ -58,7 +57,7 @@ func (b *exampleBuilder) buildExampleForObjectNode(node *internalSchema.ObjectNo
 
 	buf.WriteRune('{')
 	children := node.Children()
-	length := len(children)
+	wrote := false
 	for i, childNode := range children {
 		ex, err := b.Build(childNode)
 		if err != nil {
@@ -74,13 +73,15 @@ func (b *exampleBuilder) buildExampleForObjectNode(node *internalSchema.ObjectNo
 			return nil, err
 		}
 
-		buf.WriteRune('"')
-		buf.Write(k)
-		buf.WriteString(`":`)
-		buf.Write(ex)
-		if i+1 != length {
+		// The separator depends on what was written, not on the child index:
+		// a child can be omitted (recursion cut-off).
+		if wrote {
 			buf.WriteRune(',')
 		}
+		wrote = true
+		buf.Write(k)
+		buf.WriteRune(':')
+		buf.Write(ex)
 	}
 	buf.WriteRune('}')
 	return buf.Bytes(), nil
@@ -88,7 +89,8 @@ func (b *exampleBuilder) buildExampleForObjectNode(node *internalSchema.ObjectNo
 
 func (b *exampleBuilder) buildObjectKey(k internalSchema.ObjectNodeKey) ([]byte, error) {
 	if !k.IsShortcut {
-		return []byte(k.Key), nil
+		// The key is stored decoded, so it has to be quoted again.
+		return []byte(quoteJSON(k.Key)), nil
 	}
 
 	typ, ok := b.types[k.Key]
@@ -100,7 +102,7 @@ func (b *exampleBuilder) buildObjectKey(k internalSchema.ObjectNodeKey) ([]byte,
 	if err != nil {
 		return nil, err
 	}
-	return stdBytes.Trim(ex, `"`), nil
+	return ex, nil
 }
 
 func (b *exampleBuilder) buildExampleForArrayNode(node *internalSchema.ArrayNode) ([]byte, error) {
@@ -113,21 +115,24 @@ func (b *exampleBuilder) buildExampleForArrayNode(node *internalSchema.ArrayNode
 
 	buf.WriteRune('[')
 	children := node.Children()
-	length := len(children)
-	for i, childNode := range children {
+	wrote := false
+	for _, childNode := range children {
 		ex, err := b.Build(childNode)
 		if err != nil {
 			return nil, err
 		}
 
 		if ex == nil {
-			continue
+			// Recursion cut-off. The following items can't be written either:
+			// they would move to positions described by other items.
+			break
 		}
 
-		buf.Write(ex)
-		if i+1 != length {
+		if wrote {
 			buf.WriteRune(',')
 		}
+		wrote = true
+		buf.Write(ex)
 	}
 	buf.WriteRune(']')
 	return buf.Bytes(), nil
